@@ -1,6 +1,7 @@
 package sim
 
 import (
+	_ "unsafe"
 	"context"
 	"encoding/json"
 	"fmt"
@@ -47,6 +48,16 @@ func TestMain(m *testing.M) {
 	os.Exit(m.Run())
 }
 
+//go:linkname verifRandState runtime.verifRandState
+var verifRandState uint64
+
+var verifRandInit uint64
+
+func init() {
+	// 0xc097ef87329e28a5 is the modular inverse of the stream's increment
+	randDrawsFn = func() uint64 { return (verifRandState - verifRandInit) * 0xc097ef87329e28a5 }
+}
+
 func TestRun(t *testing.T) {
 	prop := os.Getenv("VERIF_PROP")
 	if prop == "" {
@@ -90,6 +101,8 @@ func TestRun(t *testing.T) {
 		}
 	}
 	rand.Seed(seed) //nolint (GODEBUG=randseednop=0 set by the supervisor)
+	verifRandInit = uint64(seed)*0x9e3779b97f4a7c15 + 1
+	verifRandState = verifRandInit // select case order and map seeds: see tools/instrument patchRuntime
 	uuid.SetRand(rand.New(rand.NewSource(seed ^ 0x5eed)))
 	gocbcore.VerifDial = func(ctx context.Context, addr string) (io.ReadWriteCloser, string, error) {
 		return w.cl.dial(addr)
